@@ -45,7 +45,7 @@ Y2200_US = 7_258_118_400_000_000
 FUTURE_GRID = [BASE_US, BASE_US + 1, BASE_US - 3_600_000_000, Y2200_US, Y2200_US + 1, Y2200_US - 1, Y2200_US + 86_400_000_000, BASE_US + 3_600_000_000]
 
 
-def gen_point(rng, meas=MEAS, allow_no_time=False, extra_tag_vals=(), extra_meas=(), extra_tag_keys=(), extra_field_keys=(), grid=None):
+def gen_point(rng, meas=MEAS, allow_no_time=False, extra_tag_vals=(), extra_meas=(), extra_tag_keys=(), extra_field_keys=(), grid=None, extra_field_vals=()):
     """A point spec: {"t": ("T",us,off)|None, "m": str|None, "tags", "fields"}."""
     p = {}
     if allow_no_time and rng.random() < 0.1:
@@ -66,7 +66,7 @@ def gen_point(rng, meas=MEAS, allow_no_time=False, extra_tag_vals=(), extra_meas
     fields = {}
     for k in FIELD_KEYS + list(extra_field_keys):
         if rng.random() < 0.55:
-            fields[k] = rng.choice(FIELD_VALS)
+            fields[k] = rng.choice(FIELD_VALS + list(extra_field_vals))
     p["tags"] = tags
     p["fields"] = fields
     if p["t"] is not None and rng.random() < 0.15:
